@@ -28,9 +28,13 @@ func harnessC05Notify(bits, base types.AccessMode) {
 	// a session of the affected user attached to the topic, and an admin session
 	su := verifNewSession("sid-u", u, auth.LevelAuth, 32)
 	fx.attach(su, u, false)
-	// the replica knows the old modes
+	// the replica knows the old modes - or, for somebody who subscribes only now (old modes "none"), has no record
+	// of the user at all
 	replica := &Topic{name: t.name, cat: types.TopicCatGrp, isProxy: true,
 		perUser: map[types.Uid]perUserData{u: {modeWant: oldWant, modeGiven: oldGiven}}}
+	if oldWant == types.ModeNone && oldGiven == types.ModeNone && verifNondetBool("newSubscriberUnknownToTheReplica") {
+		replica.perUser = map[types.Uid]perUserData{}
+	}
 	sessionView := perUserData{modeWant: oldWant, modeGiven: oldGiven}
 
 	t.notifySubChange(u, fx.uids[0], false, oldWant, oldGiven, newWant, newGiven, "")
